@@ -636,3 +636,84 @@ def _gen_vibrability(w, rng):
 
 
 Adapter("vibrability", "vector", "static.vector.vibrability", gen=_gen_vibrability, files=_npy_arg())
+
+
+# -------------------------------------------------- library output files re-enter the pool ----
+
+def _gen_load_evecs(w, rng):
+    c = sorted(p for p, f in w.files.items() if f["kind"] == "evecs")
+    if not c:
+        return None
+    p = rng.choice(c)
+    return {"args": {"path": p}, "reads": {p: w.files[p]["src"]}, "meta": {"snaps": w.files[p]["snaps"], "N": w.files[p]["N"]}}
+
+
+def _call_load(w, op, kw):
+    with open(kw["path"], "rb") as f:        # the analyst loads what the library saved earlier
+        return np.load(f, allow_pickle=False)
+
+
+def _exp_load_evecs(w, op, res):
+    return [("", "arr", res, {"role": "eigvec_file", "snaps": op["meta"]["snaps"], "N": op["meta"]["N"], "result": True})]
+
+
+Adapter("client.load_evecs", "hessian", "static.hessians.HessianMatrix.diagonalize_hessian#load", covers=[],
+        gen=_gen_load_evecs, call=_call_load, exports=_exp_load_evecs, weight=3.0)
+
+
+def _out_diag(w, op):
+    a = op["args"]
+    if not a.get("saveevecs", True):
+        return []
+    tag = w.pool[op["obj"]].tag if op["obj"] in w.pool else None
+    if tag is None:
+        return []
+    pre = a.get("outputfile") or a["params"]["model"]
+    return [(pre + ".evecs.npy", {"kind": "evecs", "snaps": tag["snaps"], "N": w.pool[tag["base"]].tag["N"]})]
+
+
+from worlds.c18_base import REG  # noqa: E402
+REG["HessianMatrix.diagonalize_hessian"]._outputs = _out_diag
+
+
+def _gen_pr_modes(w, rng):
+    c = sorted(n for n, e in w.pool.items() if e.kind == "arr" and e.tag.get("role") == "eigvec_file")
+    if not c:
+        return None
+    n = rng.choice(c)
+    e = w.pool[n]
+    return {"args": {"evecs": ref(n), "mode": rng.randrange(e.value.shape[1]), "N": e.tag["N"]}}
+
+
+def _call_pr_modes(w, op, kw):
+    from PyMatterSim.static.vector import participation_ratio
+    ev = kw["evecs"]
+    return participation_ratio(ev[:, kw["mode"]].reshape(kw["N"], -1))     # a (strided) view of the loaded matrix
+
+
+Adapter("participation_ratio.of_mode", "vector", "static.vector.participation_ratio#mode", covers=[], gen=_gen_pr_modes,
+        call=_call_pr_modes, faultable=False)
+
+
+def _gen_vib_modes(w, rng):
+    c = sorted(n for n, e in w.pool.items() if e.kind == "arr" and e.tag.get("role") == "eigvec_file")
+    if not c:
+        return None
+    n = rng.choice(c)
+    e = w.pool[n]
+    args = {"evecs": ref(n), "N": e.tag["N"], "skip": e.value.shape[0] // e.tag["N"]}
+    out = outpath(w, rng, "npy")
+    if out:
+        args["outputfile"] = out
+    return {"args": args}
+
+
+def _call_vib_modes(w, op, kw):
+    from PyMatterSim.static.vector import vibrability
+    ev = kw["evecs"][:, kw["skip"]:]                   # drop the zero modes: a column-sliced view
+    freqs = np.linspace(0.5, 2.0, ev.shape[1])
+    return vibrability(freqs, ev, kw["N"], kw.get("outputfile", ""))
+
+
+Adapter("vibrability.of_modes", "vector", "static.vector.vibrability#modes", covers=[], gen=_gen_vib_modes, call=_call_vib_modes,
+        files=_npy_arg())
